@@ -29,6 +29,10 @@ func TestLbvcScenarioPropagatedRequest(t *testing.T) {
 	var problems []string
 	ops := []proto.Op{proto.Op_CREATE_STREAM, proto.Op_SHRINK_ISR, proto.Op_EXPAND_ISR, proto.Op_REPORT_LEADER, proto.Op_DELETE_STREAM, proto.Op_PAUSE_STREAM,
 		proto.Op_RESUME_STREAM, proto.Op_SET_STREAM_READONLY, proto.Op_JOIN_CONSUMER_GROUP, proto.Op_LEAVE_CONSUMER_GROUP, proto.Op_REPORT_CONSUMER_GROUP_COORDINATOR}
+	// the operation number is a 32-bit integer on the wire: numbers no operation has, negative ones and the extremes too
+	for _, n := range []int32{-1, -2, -130, 3, 8, 10, 14, 15, 127, 128, 1000, -2147483648, 2147483647} {
+		ops = append(ops, proto.Op(n))
+	}
 	for _, op := range ops {
 		data, err := proto.MarshalPropagatedRequest(&proto.PropagatedRequest{Op: op})
 		if err != nil {
